@@ -516,74 +516,3 @@ impl<const N: usize> Seek for FaultMem<N> {
         Ok(np as u64)
     }
 }
-
-/// Device that stores only the window [lo, lo+W): reads outside it return zeros, any write touching a byte outside
-/// it sets `outside` (harnesses assert it stays false). Positions and lengths are expected to be concrete.
-pub(crate) struct WinDev<const W: usize> {
-    pub lo: u64,
-    pub data: [u8; W],
-    pub pos: u64,
-    pub outside: bool,
-    pub writes: u32,
-    pub reads: u32,
-    pub flushes: u32,
-}
-
-impl<const W: usize> WinDev<W> {
-    pub fn new(lo: u64) -> Self {
-        Self { lo, data: [0u8; W], pos: 0, outside: false, writes: 0, reads: 0, flushes: 0 }
-    }
-}
-
-impl<const W: usize> IoBase for WinDev<W> {
-    type Error = DevErr;
-}
-
-impl<const W: usize> Read for WinDev<W> {
-    fn read(&mut self, buf: &mut [u8]) -> Result<usize, DevErr> {
-        let mut i = 0;
-        while i < buf.len() {
-            let p = self.pos + i as u64;
-            buf[i] = if p >= self.lo && p < self.lo + W as u64 { self.data[(p - self.lo) as usize] } else { 0 };
-            i += 1;
-        }
-        self.pos += buf.len() as u64;
-        self.reads += 1;
-        Ok(buf.len())
-    }
-}
-
-impl<const W: usize> Write for WinDev<W> {
-    fn write(&mut self, buf: &[u8]) -> Result<usize, DevErr> {
-        let mut i = 0;
-        while i < buf.len() {
-            let p = self.pos + i as u64;
-            if p >= self.lo && p < self.lo + W as u64 {
-                self.data[(p - self.lo) as usize] = buf[i];
-            } else {
-                self.outside = true;
-            }
-            i += 1;
-        }
-        self.pos += buf.len() as u64;
-        self.writes += 1;
-        Ok(buf.len())
-    }
-    fn flush(&mut self) -> Result<(), DevErr> {
-        self.flushes += 1;
-        Ok(())
-    }
-}
-
-impl<const W: usize> Seek for WinDev<W> {
-    fn seek(&mut self, pos: SeekFrom) -> Result<u64, DevErr> {
-        let np: i128 = match pos {
-            SeekFrom::Start(x) => x as i128,
-            SeekFrom::Current(x) => self.pos as i128 + x as i128,
-            SeekFrom::End(x) => (1i128 << 40) + x as i128,
-        };
-        kani::assume(np >= 0);
-        self.pos = np as u64;
-        Ok(self.pos)
-    }
-}
